@@ -211,7 +211,15 @@ func parseString(s *sqliState) int {
 }
 
 func parseWord(s *sqliState) int {
-	length := strLenCSpn(s.input[s.pos:], s.length-s.pos, wordAcceptTable)
+	// A token holds at most tokenSize-1 bytes, so the search below for a keyword in
+	// front of a '.' or '`' only ever looks at the head of the word. Scan that head
+	// first: measuring the whole undelimited run up front and then consuming just the
+	// keyword made inputs such as ".5MOD.5MOD..." or "`a`OR`a`OR..." quadratic.
+	head := s.length - s.pos
+	if head > tokenSize {
+		head = tokenSize
+	}
+	length := strLenCSpn(s.input[s.pos:], head, wordAcceptTable)
 	s.current.assign(sqliTokenTypeBareWord, s.pos, length, s.input[s.pos:])
 
 	// now we need to look inside what we good for "." and "`"
@@ -228,6 +236,11 @@ func parseWord(s *sqliState) int {
 				return s.pos + i
 			}
 		}
+	}
+
+	if length == tokenSize {
+		// the word fills the head: find where it really ends
+		length += strLenCSpn(s.input[s.pos+length:], s.length-s.pos-length, wordAcceptTable)
 	}
 
 	// do normal lookup with word including '.'
